@@ -227,7 +227,7 @@ def finish(prop, tier, seed, t0, level, check, tot, viol, known, mcs, scenarios,
         print("VIOLATION property=%s replay=%s" % (prop, p))
     log("%s: %d scenarios, %d events validated, %d exercised, %d violation(s), %d known, %.1fs"
         % (prop, len(scenarios), tot["events"], tot["exercised"], len(viol) + extra_viol, len(known), time.time() - t0))
-    return 1 if viol else 0
+    return 1 if (viol or extra_viol) else 0
 
 
 ASSUME_COMMON = [
@@ -294,12 +294,35 @@ def automata_check(prop, tier, seed, t0, check, scenarios, mc=(), level="model_c
 
 # =========================================================================== properties
 def c01(prop, tier, seed, t0):
-    return responder_check(prop, tier, seed, t0, {"C02"}, campaigns.campaign_c01(seed, tier), level="exploration", mc=[("BoundsMC.tla", "BoundsMC.cfg")],
-                           assumptions=["memory safety and UB-freedom are observed by ASan/UBSan (-fno-sanitize-recover) on the behaviours the "
-                                        "generators produce, not proved; the bounds logic is model-checked (ResponderMC ReadExtent)",
-                                        "every frame goes through all three receive entry points: derive_session_event, parseFrame, "
-                                        "lltd_esp32_handle_frame (exact-length heap copy), followed by automata_tick",
-                                        "the recorded trace must be complete and every transmitted frame well-formed and within the solicited bounds (Check=C02)"])
+    import acampaigns
+    work = vlib.Work(prop)
+    binp = vlib.build_responder("asan")
+    mcs = [mc_step(work, "BoundsMC.tla", "BoundsMC.cfg", scope=1 if tier == "quick" else 2)]
+    scs = campaigns.campaign_c01(seed, tier)
+    tot, viol, known = run_campaign(prop, {"C02"}, scs, seed, work, binp)
+    # the receive loops also run the classifier's session table, the engines and the tick on every frame: the
+    # automata side under the same sanitizers (tables at and past capacity, long schedules through the Darwin
+    # frame flow, two interfaces) - a trace that stops short of its script is a crash
+    abin = vlib.build_automata("asan")
+    c16 = acampaigns.campaign_c16(seed, tier)
+    ascs = c16[:6] + [x for x in c16 if x.name.startswith(("c16-full", "c16-expiry"))] + acampaigns.campaign_c12(seed, tier)[:8] \
+        + [acampaigns.sc_two_interfaces("c01-twoif", seed)]
+    atot, aviol, _ak = run_campaign(prop, set(), ascs, seed, work, abin, module="AutomataTrace.tla")
+    areplays = [vlib.write_replay(prop, set(), sc, why, seed, 300 + i, kind="automata") for i, (sc, why) in enumerate(aviol[:4])]
+    for rp in areplays:
+        print("VIOLATION property=%s replay=%s" % (prop, rp))
+    tot["events"] += atot["events"]
+    rc = finish(prop, tier, seed, t0, "exploration", {"C02"}, tot, viol, known, mcs, scs + ascs, ASSUME_COMMON + [
+        "memory safety and UB-freedom are observed by ASan/UBSan (-fno-sanitize-recover) on the behaviours the "
+        "generators produce, not proved; the bounds logic is model-checked (ResponderMC ReadExtent)",
+        "every frame goes through all three receive entry points: derive_session_event, parseFrame, "
+        "lltd_esp32_handle_frame (exact-length heap copy), followed by automata_tick; the session table, the engines and the "
+        "Darwin frame flow are driven by the automata driver under the same sanitizers",
+        "the recorded trace must be complete and every transmitted frame well-formed and within the solicited bounds (Check=C02)"],
+        extra_viol=len(aviol))
+    if rc == 0:
+        work.cleanup()
+    return rc
 
 
 def with_g1(scs, seed, tier, quick_limit, thorough_limit=40000):
@@ -427,7 +450,7 @@ def c10(prop, tier, seed, t0):
     pre = [must_violate(work0, "NetworkMC.tla", "NetworkMC-mapper.cfg", "Invariant PeerObserves is violated"),
            must_violate(work0, "NetworkMC.tla", "NetworkMC-bcast.cfg", "Invariant PeerObserves is violated")]
     work0.cleanup()
-    return responder_check(prop, tier, seed, t0, {"C10"}, campaigns.campaign_c10(seed, tier), mc=[("NetworkMC.tla", "NetworkMC-dst.cfg")],
+    return responder_check(prop, tier, seed, t0, {"C10", "C06"}, campaigns.campaign_c10(seed, tier), mc=[("NetworkMC.tla", "NetworkMC-dst.cfg")],
                            extra_cov={"network_model_refuted_alternatives": pre})
 
 
